@@ -40,6 +40,9 @@ struct Tagged
 };
 static List<Tagged>* tl;
 alignas(List<Tagged>) static unsigned char tmem[sizeof(List<Tagged>)];
+// PoolList of the same type: constructed in place through the two-argument append(A, B)
+static PoolList<Tagged>* ptl;
+alignas(PoolList<Tagged>) static unsigned char ptmem[sizeof(PoolList<Tagged>)];
 
 typedef List<int> L;
 typedef PoolList<int> P;
@@ -62,6 +65,7 @@ static void resetAll()
     if(av[i]) av[i]->~A();
     lv[i] = new(lmem[i]) L;
     if(i == 0) { if(tl) tl->~List<Tagged>(); tl = new(tmem) List<Tagged>; }
+    if(i == 0) { if(ptl) ptl->~PoolList<Tagged>(); ptl = new(ptmem) PoolList<Tagged>; }
     pv[i] = new(pmem[i]) P;
     av[i] = new(amem[i]) A;
   }
@@ -244,6 +248,40 @@ int main()
       for(int i = 0; i < NV; ++i) showList("l", i, *lv[i]);
       for(int i = 0; i < NV; ++i) showList("p", i, *pv[i]);
       for(int i = 0; i < NV; ++i) showArray(i, *av[i]);
+      hxEndLine();
+      continue;
+    }
+    if(op[0] == 'u')
+    {
+      // PoolList<Tagged>: uappend k tag (append(A, B)), uremove pos, uremoveBack, uclear
+      if(hxIs(l, "uappend", 2))
+      {
+        Tagged& r = ptl->append((int)hxInt(l, 1), (int)hxInt(l, 2));
+        PoolList<Tagged>::Iterator last = ptl->end(); --last;
+        if(&r != &*last) printf("append-returns-other ");
+      }
+      else if(hxIs(l, "uremove", 1))
+      {
+        size_t pos = hxNum(l, 1);
+        if(pos >= ptl->size()) { printf("bad-op"); hxEndLine(); continue; }
+        PoolList<Tagged>::Iterator it = ptl->begin();
+        for(size_t i = 0; i < pos; ++i) ++it;
+        PoolList<Tagged>::Iterator nx = ptl->remove(it);
+        size_t k = 0;
+        for(PoolList<Tagged>::Iterator j = ptl->begin(); j != nx && j != ptl->end(); ++j) ++k;
+        if(k != pos) printf("remove-returns-other ");
+      }
+      else if(hxIs(l, "uremoveBack", 0))
+      {
+        if(ptl->size() == 0) { printf("bad-op"); hxEndLine(); continue; }
+        ptl->removeBack();
+      }
+      else if(hxIs(l, "uclear", 0)) ptl->clear();
+      else { printf("bad-op"); hxEndLine(); continue; }
+      printf("u %lu ", (unsigned long)ptl->size());
+      if(ptl->isEmpty()) printf("-");
+      size_t i = 0;
+      for(PoolList<Tagged>::Iterator it = ptl->begin(); it != ptl->end(); ++it, ++i) printf(i ? ",%d:%d" : "%d:%d", it->k, it->tag);
       hxEndLine();
       continue;
     }
